@@ -31,101 +31,289 @@ func pickSize(r *hx.Rng, max int) int {
 	}
 }
 
-// Gen emits histories: a reset line (options + pre-existing files) followed by 4..36 operations.
+const (
+	maxInt64 = int64(^uint64(0) >> 1)
+	minInt64 = -maxInt64 - 1
+)
+
+func itoa(v int64) string { return strconv.FormatInt(v, 10) }
+
+// limits picks MaxSize and MaxBackups as passed to the options (signed, any magnitude) and the natural numbers they
+// act as (negative = 0; `eff` values drive the choice of write sizes and history lengths only).
+func limits(r *hx.Rng) (size int64, backups int64, effSize int, effBackups int) {
+	size = int64(hx.Pick(r, []int{1, 2, 10, 100, 1, 2, 10, 100, 3, 7, 25}))
+	switch r.Intn(40) {
+	case 0, 1, 2:
+		size = int64(r.Range(1, 40))
+	case 3:
+		size = 0 // outside the property's quantifier (MaxSize >= 1) but accepted by the API: every non-empty file rotates
+	case 4:
+		size = hx.Pick(r, []int64{-1, -100, minInt64, minInt64 + 1})
+	case 5:
+		size = hx.Pick(r, []int64{maxInt64, maxInt64 - 1, maxInt64/2 + 1, 1 << 62, 1 << 32, 1<<32 - 1, 1 << 31, 1<<31 - 1})
+	case 6:
+		size = hx.Pick(r, []int64{255, 256, 1000, 1024, 4096, 65536})
+	}
+	backups = int64(hx.Pick(r, []int{0, 1, 2, 5, 0, 1, 2, 5, 3, 10, 12, 25}))
+	switch r.Intn(40) {
+	case 0:
+		backups = hx.Pick(r, []int64{-1, -7, minInt64})
+	case 1:
+		backups = hx.Pick(r, []int64{9, 10, 11, 19, 20, 99, 100})
+	}
+	effSize, effBackups = int(size), int(backups)
+	if size < 0 {
+		effSize = 0
+	}
+	if size > 1<<20 {
+		effSize = 1 << 20
+	}
+	if backups < 0 {
+		effBackups = 0
+	}
+	return
+}
+
+// sizeBase is the magnitude around which write sizes are chosen.
+func sizeBase(effSize int) int {
+	if effSize <= 0 {
+		return 3
+	}
+	if effSize >= 1<<20 {
+		return 12
+	}
+	return effSize
+}
+
+func limitOpts(size, backups int64) (string, string) { return "S" + itoa(size), "B" + itoa(backups) }
+
+// preSpec: files left by an earlier instance. kind 0 random subset, 1 every slot 0..B filled, 2 only backups (no
+// current file), 3 gaps and files beyond MaxBackups.
+func preSpec(r *hx.Rng, kind, max, effBackups int) string {
+	var pre []string
+	add := func(i, n int) { pre = append(pre, strconv.Itoa(i)+":"+strconv.Itoa(n)) }
+	top := effBackups
+	if top > 14 {
+		top = 14
+	}
+	switch kind {
+	case 1:
+		for i := 0; i <= top; i++ {
+			add(i, pickSize(r, max))
+		}
+	case 2:
+		for i := 1; i <= top; i++ {
+			if r.Chance(2, 3) {
+				add(i, pickSize(r, max))
+			}
+		}
+	case 3:
+		add(0, hx.Pick(r, []int{0, 1, max, max + 1}))
+		for i := 1; i <= top+3; i++ {
+			if r.Chance(1, 2) {
+				add(i, pickSize(r, max))
+			}
+		}
+		add(effBackups+r.Range(4, 12), r.Range(0, 5))
+	default:
+		if r.Chance(2, 3) {
+			add(0, pickSize(r, max))
+		}
+		for i := 1; i <= top+2; i++ {
+			if r.Chance(1, 3) {
+				add(i, pickSize(r, max))
+			}
+		}
+		if r.Chance(1, 10) {
+			add(effBackups+r.Range(3, 9), r.Range(0, 5))
+		}
+	}
+	if len(pre) == 0 {
+		return "-"
+	}
+	return strings.Join(pre, ",")
+}
+
+// otherLimits is the argument of `reopen <opts>`: the next instance runs with other limits (lowered, raised, 0,
+// two-digit) on the directory the previous one left behind.
+func otherLimits(r *hx.Rng, max int) string {
+	var o []string
+	if r.Chance(2, 3) {
+		o = append(o, "B"+strconv.Itoa(hx.Pick(r, []int{0, 1, 2, 3, 5, 9, 10, 11, 12, 25})))
+	}
+	if r.Chance(1, 2) || len(o) == 0 {
+		o = append(o, "S"+strconv.Itoa(hx.Pick(r, []int{1, 2, max, max + 1, max / 2, 2 * max, 10, 100})))
+	}
+	if r.Chance(1, 8) {
+		o = append(o, "M"+strconv.Itoa(hx.Pick(r, []int{0o700, 0o777, 0o770, 0o707})))
+	}
+	return strings.Join(o, ",")
+}
+
+// Gen emits histories: a reset line (options + pre-existing files) followed by operations in one of several shapes.
 func (a *rot) Gen(r *hx.Rng, n int, _ string, emit func(string)) {
 	emitted := 0
+	out := func(s string) { emit(s); emitted++ }
 	for emitted < n {
-		max := hx.Pick(r, []int{1, 2, 10, 100, 1, 2, 10, 100, 3, 7, 25})
-		if r.Chance(1, 12) {
-			max = r.Range(1, 40)
-		}
-		if r.Chance(1, 40) {
-			max = 0 // outside the property's quantifier (MaxSize >= 1) but accepted by the API: every non-empty file rotates
-		}
-		backups := hx.Pick(r, []int{0, 1, 2, 5, 0, 1, 2, 5, 3})
-		effBackups := backups
-		var opts []string
-		sizeGiven := true
-		newFails := false
-		switch r.Intn(16) {
+		size, backups, effSize, effBackups := limits(r)
+		max := sizeBase(effSize)
+		so, bo := limitOpts(size, backups)
+		opts := []string{so, bo, "P"}
+		newFails, defPath := false, false
+		switch r.Intn(20) {
 		case 0: // MaxBackups left at its default
-			opts = []string{"S" + strconv.Itoa(max), "P"}
+			opts = []string{so, "P"}
 			effBackups = 1
 		case 1: // MaxSize left at its default (no rotation can happen with the sizes used here)
-			opts = []string{"B" + strconv.Itoa(backups), "P"}
-			sizeGiven = false
+			opts = []string{bo, "P"}
+			effSize, max = 1<<20, 12
 		case 2: // later options override earlier ones
-			opts = []string{"S" + strconv.Itoa(max+5), "B" + strconv.Itoa(backups+1), "P", "S" + strconv.Itoa(max), "B" + strconv.Itoa(backups)}
-		case 3: // empty path: New fails
-			opts = []string{"S" + strconv.Itoa(max), "B" + strconv.Itoa(backups), "E"}
-			if r.Bool() {
-				opts = []string{"P", "E", "S" + strconv.Itoa(max)}
-			}
+			opts = []string{"S" + itoa(int64(max+5)), "B" + itoa(int64(effBackups+1)), "P", so, bo}
+		case 3: // empty path: New fails, wherever the option stands
+			opts = hx.Pick(r, [][]string{{so, bo, "E"}, {"P", "E", so}, {"E", "P", so}, {"E"}})
 			newFails = true
 		case 4, 5: // path in a directory that does not exist yet
-			opts = []string{"Q", "S" + strconv.Itoa(max), "B" + strconv.Itoa(backups)}
-		case 6: // a failing option repaired later is still a failure; an empty path first, then a good one
-			opts = []string{"S" + strconv.Itoa(max), "B" + strconv.Itoa(backups), "P"}
-			if r.Chance(1, 4) {
-				opts = []string{"E", "P", "S" + strconv.Itoa(max)}
-				newFails = true
+			opts = []string{"Q", so, bo}
+		case 6: // WithMask (file modes are not part of the property; contents must not depend on it)
+			opts = []string{so, "M" + strconv.Itoa(hx.Pick(r, []int{0o700, 0o777, 0o770, 0o707})), bo, hx.Pick(r, []string{"P", "Q"})}
+		case 7:
+			if r.Chance(1, 3) { // no Path option: DefaultPath(), constructed only
+				opts = hx.Pick(r, [][]string{{so, bo}, {so}, {}})
+				defPath = true
 			}
 		default:
-			opts = []string{"S" + strconv.Itoa(max), "B" + strconv.Itoa(backups), "P"}
 			if r.Bool() {
 				opts[0], opts[2] = opts[2], opts[0]
 			}
 		}
-		var pre []string
-		if r.Chance(1, 2) {
-			if r.Chance(2, 3) {
-				pre = append(pre, "0:"+strconv.Itoa(pickSize(r, max)))
-			}
-			for i := 1; i <= effBackups+2; i++ {
-				if r.Chance(1, 3) {
-					pre = append(pre, strconv.Itoa(i)+":"+strconv.Itoa(pickSize(r, max)))
-				}
-			}
-			if r.Chance(1, 10) {
-				pre = append(pre, strconv.Itoa(effBackups+r.Range(3, 9))+":"+strconv.Itoa(r.Range(0, 5)))
-			}
+		os := "-"
+		if len(opts) > 0 {
+			os = strings.Join(opts, ",")
 		}
+		shape := r.Intn(12)
 		ps := "-"
-		if len(pre) > 0 {
-			ps = strings.Join(pre, ",")
+		if shape == 5 || shape == 6 { // restart shapes: state left by a previous run
+			ps = preSpec(r, r.Range(1, 3), max, effBackups)
+		} else if r.Chance(1, 2) {
+			ps = preSpec(r, 0, max, effBackups)
 		}
-		emit("reset " + strings.Join(opts, ",") + " " + ps)
-		emitted++
-		// long histories for many backups so that more than MaxBackups+1 files get filled
-		k := r.Range(4, 16+4*effBackups)
-		if !sizeGiven {
-			k = r.Range(3, 8)
+		out("reset " + os + " " + ps)
+		if newFails || defPath {
+			for i, k := 0, r.Range(1, 3); i < k; i++ {
+				out(hx.Pick(r, []string{"w 1", "close", "obs", "sync", "reopen"}))
+			}
+			continue
 		}
-		if newFails {
-			k = r.Range(1, 3)
-		}
-		big := r.Chance(1, 3) // histories dominated by boundary-sized writes: a rotation on almost every write
-		for i := 0; i < k; i++ {
+		misc := func() bool { // Close / re-open / Sync / obs sprinkled anywhere
 			switch c := r.Intn(40); {
 			case c < 3:
-				emit("close")
+				out("close")
+			case c < 5:
+				out("reopen")
 			case c < 6:
-				emit("reopen")
+				out("reopen " + otherLimits(r, max))
 			case c < 7:
-				emit("sync")
+				out("sync")
 			case c < 8:
-				emit("obs")
+				out("obs")
 			default:
-				sz := pickSize(r, max)
-				if big {
-					sz = hx.Pick(r, []int{max, max + 1, max, 3 * max, max - 1 + r.Intn(2), 1})
-				}
-				if sz < 0 {
-					sz = 0
-				}
-				emit("w " + strconv.Itoa(sz))
+				return false
 			}
-			emitted++
+			return true
+		}
+		w := func(sz int) {
+			if sz < 0 {
+				sz = 0
+			}
+			out("w " + strconv.Itoa(sz))
+		}
+		if effSize >= 1<<20 { // nothing can rotate: short
+			for i, k := 0, r.Range(3, 8); i < k; i++ {
+				if !misc() {
+					w(pickSize(r, max))
+				}
+			}
+			continue
+		}
+		switch shape {
+		case 0, 1, 2: // boundary-sized writes: a rotation on almost every write
+			for i, k := 0, r.Range(4, 16+4*min(effBackups, 8)); i < k; i++ {
+				if !misc() {
+					w(hx.Pick(r, []int{max, max + 1, max, 3 * max, max - 1 + r.Intn(2), 1}))
+				}
+			}
+		case 3: // many rotations (50+) in one history
+			for i, k := 0, r.Range(60, 150); i < k; i++ {
+				if r.Chance(1, 25) {
+					misc()
+				}
+				w(hx.Pick(r, []int{max, max, max + 1, (max + 1) / 2, max}))
+			}
+		case 4: // fill the file to exactly MaxSize (in 1-3 pieces) or write one oversized record, then Close / re-open /
+			// empty write at exactly that moment
+			for i, k := 0, r.Range(3, 8); i < k; i++ {
+				switch r.Intn(4) {
+				case 0:
+					w(max)
+				case 1:
+					p := r.Range(0, max)
+					w(p)
+					w(max - p)
+				case 2:
+					p := r.Range(0, max)
+					q := r.Range(0, max-p)
+					w(p)
+					w(q)
+					w(max - p - q)
+				default:
+					w(hx.Pick(r, []int{max + 1, 2 * max, 3*max + 1}))
+				}
+				switch r.Intn(6) {
+				case 0:
+					out("close")
+				case 1:
+					out("reopen")
+				case 2:
+					out("reopen " + otherLimits(r, max))
+				case 3:
+					out("close")
+					out("sync")
+					out("close")
+				case 4:
+					w(0)
+				}
+				if r.Bool() {
+					w(hx.Pick(r, []int{0, 1, 1, max}))
+				}
+			}
+		case 5, 6: // restart on what an earlier instance left (all slots full / only backups / gaps and beyond)
+			if r.Bool() {
+				out("reopen")
+			}
+			for i, k := 0, r.Range(2, 6+effBackups); i < k; i++ {
+				w(hx.Pick(r, []int{max, max + 1, 1, pickSize(r, max)}))
+			}
+			out(hx.Pick(r, []string{"reopen", "close", "reopen " + otherLimits(r, max)}))
+			for i, k := 0, r.Range(2, 8); i < k; i++ {
+				if !misc() {
+					w(hx.Pick(r, []int{max, max + 1, 1, pickSize(r, max)}))
+				}
+			}
+		case 7: // empty writes in every state
+			for i, k := 0, r.Range(4, 14); i < k; i++ {
+				if !misc() {
+					w(pickSize(r, max))
+				}
+				if r.Chance(2, 3) {
+					w(0)
+				}
+			}
+		default:
+			for i, k := 0, r.Range(4, 16+4*min(effBackups, 8)); i < k; i++ {
+				if !misc() {
+					w(pickSize(r, max))
+				}
+			}
 		}
 	}
 }
